@@ -23,9 +23,26 @@ DRIVER = "drv_future"
 LEAN_TARGETS = PROPS + [DRIVER]
 MANIFEST = {
     "C10": {
-        "technique": "Lean 4 proof over a micro-step transition-system model of Future/ThreadPool/LockFreeQueue/FastSignal/Signal (all schedules, any number of threads, any capacity) + controlled-scheduler correspondence on the real thread pool",
-        "text": "TODO",
-        "note": "TODO",
+        "technique": ("Lean 4 proof over a micro-step transition-system model of Future / ThreadPool / LockFreeQueue / FastSignal / Signal "
+                      "(all schedules, any number of client and worker threads, any queue capacity) + controlled-scheduler correspondence: the unmodified "
+                      "src/Future.cpp, Signal.cpp, Thread.cpp, Mutex.cpp run over a simulated POSIX layer in which every atomic operation and pthread call is a "
+                      "scheduling point; each trace is replayed step by step on the compiled Lean model"),
+        "text": ("Theorems (Props.lean, axiom-audited on every run): the lock-free ring is FIFO / hands every ticket over at most once for every capacity and thread count "
+                 "(closed ring system and, by a proved simulation, the queue inside the full pool model); a worker never reads a raw slot; safety of the call/record/"
+                 "completion handshake over all schedules of the full model (see the theorem list in the evidence); the repaired FastSignal never loses a set and the repaired "
+                 "sleep/wake protocol has no lost wake-up for any number of consumers/suppliers (abstract protocol system); negation witnesses (kernel-checked schedules) that the "
+                 "ORIGINAL code deadlocks (defect D17 on the full model; D17 and the swallowed wake-up on the protocol).  Tie to the code on every run: the real thread pool "
+                 "(private ThreadPool built with queue sizes 1/2/4/8 and thread limits by #including Future.cpp) is run under deviation-bounded exhaustive and random schedules; "
+                 "the Lean model replays every scheduler step and must predict the same enabled set, operation, object, returned value and events; an independent Python "
+                 "reference checks exactly-once, arguments, join-after-completion, result, flags after join, record freed once, no POSIX misuse, no deadlock on the "
+                 "implementation's own trace."),
+        "note": ("Modelled, not verified: the hand translation of the C++ into the model (validated by the step-by-step replay, not proved); sequentially consistent atomics; the "
+                 "simulated POSIX semantics (mutex, condition variable with spurious wake-ups, create/join, virtual clock) is an assumption shared by scheduler and model; scheduling "
+                 "points of the implementation run are atomic operations and pthread calls only (plain volatile reads are not separately interleaved in the run, they are in the "
+                 "theorems); usize wrap-around outside.  OPEN (stated in Props.lean, not proved): `join_eventually` and `no_stuck_worker_side` on the FULL model (liveness of the "
+                 "pool incl. the spawn/retire counters); what is proved instead: the abstract-protocol theorems `fastsignal_set_not_lost`, `no_stuck_protocol` (any number of threads) "
+                 "and Signal-level progress lemmas; the scheduler verdict (no deadlock in any explored schedule) is a test.  The model mirrors the REPAIRED code "
+                 "(fixes/future/0001-0004, fixes/sync/0001); on the unrepaired tree the check reports the defects with concrete failing schedules."),
         "design_ref": "DESIGN.md 3/C10",
     }
 }
